@@ -28,6 +28,12 @@ class P:
         for k in range(n):
             g.rich_layout = (k % 2 == 1)
             srcs.append(g.program(rnd.choice([1, 2, 2, 3])))
+        # renderings of grammar derivations (all word forms adjacent to each other, here-documents before line breaks after && || |)
+        from props import dgen as D
+        dg = D.DGen(rnd)
+        for _ in range(3000 if tier == "quick" else 40000):
+            srcs.append(D.render(dg.program(rnd.choice([1, 2, 2, 3])), rnd, rich=rnd.random() < 0.7)[0])
+        srcs += G.arith_corpus() + G.heredoc_corpus()
         srcs += list(G.strings_upto(G.ALPHA1, 3 if tier == "quick" else 4))
         cases = [hx(s) for s in srcs]
 
